@@ -404,7 +404,12 @@ static int apply_fs_and_gvs_to_rtx (hawk_rtx_t* rtx, arg_t* arg)
 
 		/* change FS according to the command line argument */
 		hawk_rtx_refupval (rtx, fs);
-		hawk_rtx_setgbl (rtx, HAWK_GBL_FS, fs);
+		if (hawk_rtx_setgbl(rtx, HAWK_GBL_FS, fs) <= -1)
+		{
+			/* e.g. the regular expression could not be compiled */
+			hawk_rtx_refdownval (rtx, fs);
+			return -1;
+		}
 		hawk_rtx_refdownval (rtx, fs);
 	}
 
